@@ -1,5 +1,5 @@
 #include "statedump.h"
-#include "/repo/include/bidib.h"
+#include "include/bidib.h"
 #include <stdio.h>
 #include <string.h>
 #define P(...) do { if (o + 256 < n) o += (size_t) snprintf(buf + o, n - o, __VA_ARGS__); } while (0)
